@@ -42,6 +42,7 @@ Tok(t, R) ==
       [] t = "i0"       -> <<>>
       [] t = "i1"       -> <<1>>
       [] t = "i32"      -> <<32>>
+      [] t = "i64"      -> <<64>>
       [] t = "i127"     -> <<127>>
       [] t = "i128"     -> <<128>>
       [] t = "iU64"     -> Rep(8, 255)
